@@ -3,6 +3,7 @@ import GixModel.Lemmas.C06b
 import GixModel.Lemmas.C06c
 import GixModel.Lemmas.C06d
 import GixModel.Lemmas.C06m
+import GixModel.Lemmas.C06e
 import GixModel.Props.C05
 import GixModel.Props.C15
 import GixModel.Props.C21
@@ -22,6 +23,8 @@ Part A — C06's own models (Model/C06.lean), every slice / index / `expect` / c
 Part A2 — round 2, Model/C06b.lean: identity_never_panics, signature_never_panics,
          capabilities_never_panic, fetch_line_never_panics, loose_ref_never_panics, expand_path_never_panics,
          midx_open_never_panics (Model/C06m.lean)
+Part A3 — round 3, Model/C06e.lean: quote_undo_never_panics, config_int_never_panics,
+         date_raw_never_panics, reflog_line_sites_never_panic
 Part C — proved HERE over other properties' models that DO have panic outcomes: index_never_panics
          (C24's State::from_bytes, all thread limits), commit_graph_open_never_panics (C14's File::new)
 Part B — re-exports, under uniform names, of the panic-freedom theorems other properties prove
@@ -172,6 +175,35 @@ of the PNAM and OIDF chunks, `&chunk[..pos]` / `&chunk[pos + 1..]` of the name l
 `&data[highest_offset..]` never fail. -/
 theorem midx_open_never_panics (ordered : Bytes → Bytes → Bool) (data : Bytes) : midxOpen ordered data ≠ none :=
   midxOpen_ne_none ordered data
+
+/-! ## Part A, round 3: Model/C06e.lean -/
+
+/-- `gix_quote::ansi_c::undo` on ANY bytes: `&input[1..]`, `&input[..position]`, `input[position]`,
+the `unreachable!` behind `find_byteset`, the `read_exact(..).expect(..)` of the octal escape and
+`&input[2..]` never fail, and the loop terminates (every round consumes at least one byte). -/
+theorem quote_undo_never_panics (input : Bytes) : undoRun input ≠ .panic ∧ undoRun input ≠ .hang :=
+  undoRun_total input
+
+/-- `gix_config_value::Integer::try_from` + `to_decimal` on ANY bytes: `s.len() - 1` cannot underflow
+and `s.split_at(s.len() - 1)` is on a char boundary inside the string. -/
+theorem config_int_never_panics (s : Bytes) : configInt s ≠ .panic ∧ configInt s ≠ .hang :=
+  configInt_total s
+
+/-- `gix_date`'s `parse_raw` (what `gix_date::parse` is on `[-]<digits> <sign>HHMM`): the
+overflow-checked `i32` arithmetic `hours * 3600 + minutes * 60` and `*= -1` cannot overflow, for
+ANY two bytes in the `HH` and `MM` positions. -/
+theorem date_raw_never_panics (s : Bytes) :
+    (parseRaw s ≠ .panic ∧ parseRaw s ≠ .hang) ∧ (dateRawRun s ≠ .panic ∧ dateRawRun s ≠ .hang) :=
+  ⟨parseRaw_total s, dateRawRun_total s⟩
+
+/-- `LineRef::from_bytes`: the index expressions `decode::one` computes itself (`&bytes[..eol]`,
+`line[email_end..]`, `&bytes[..before_message_len]`) are in range on ANY bytes, and the
+`from_hex(..).expect("parse validation")` of `previous_oid()` / `new_oid()` hold for whatever the two
+`hex_hash` parsers cut out (C05's characterisation of `from_hex`). The signature inside the line is
+`signature_never_panics`; the winnow combinators between the sites are C21's total `parseLine`. -/
+theorem reflog_line_sites_never_panic (bytes : Bytes) :
+    reflogLineSites bytes ≠ .panic ∧ reflogLineSites bytes ≠ .hang :=
+  reflogLineSites_total bytes
 
 /-! ## Part B: re-exports of other properties' panic-freedom theorems -/
 
